@@ -120,6 +120,21 @@ def run(ctx, res):
             k += 1
             if k == 3:
                 res.sample({"target": target, "sizes": [len(c) for c in contents]})
+    # the last file is empty or an exact multiple of the 254-byte payload, the total just below / above the capacity
+    for target in (range(21475, 21512) if ctx.thorough else range(21484, 21508, 2)):
+        last = rng.choice([0, 254, 508, 762])
+        nfiles = rng.choice([2, 3])
+        sizes = [rng.choice([0, 254, 300, 1000]) for _ in range(nfiles - 2)] + [0, last]
+        rest = T.enc_size([bytes(x) for x in sizes])
+        fit = None
+        for n in range(max(0, target - rest - 2300), max(0, target - rest) + 2):
+            if rest + (21 * ((n + 253) // 254) + n) == target:
+                fit = n
+                break
+        if fit is None:
+            continue
+        sizes[-2] = fit
+        one_case(ctx, res, "frontier_last_multiple_of_254", [(f"l{i}.bin", T.content_for(rng, x)) for i, x in enumerate(sizes)])
     # overflow far from the end: in leaders / end blocks of later files
     for _ in range(ctx.n(40, 400)):
         n = rng.choice([2, 3, 8, 30])
